@@ -27,7 +27,7 @@ func (x *Exec) execInstr(fr *Frame, ins ssa.Instruction, bc Term, st State) {
 	case *ssa.DebugRef:
 		return
 	case *ssa.Alloc:
-		fr.vals[i] = x.doAlloc(st, i.Type().(*types.Pointer).Elem(), i.Comment)
+		fr.vals[i] = x.doAlloc(st, i.Type().(*types.Pointer).Elem(), i.Comment, i.Heap)
 	case *ssa.Store:
 		p := fr.value(i.Addr)
 		x.nilCheck(fr, p, i.Pos(), bc, "store")
@@ -51,6 +51,15 @@ func (x *Exec) execInstr(fr *Frame, ins ssa.Instruction, bc Term, st State) {
 		x.nilCheck(fr, p, i.Pos(), bc, "field")
 		pt := i.X.Type().Underlying().(*types.Pointer).Elem()
 		named, sty, ok := x.structOf(pt)
+		if ok && p.Kind == VAddr && p.A.Kind == ALocal {
+			f := sty.Field(i.Field)
+			if _, _, nested := x.structOf(f.Type()); nested {
+				fr.vals[i] = poison("nested struct field address", i.Type())
+				return
+			}
+			fr.vals[i] = Value{Kind: VAddr, Typ: i.Type(), A: &Addr{Kind: ALocal, Comp: p.A.Comp + "." + f.Name(), Typ: f.Type()}}
+			return
+		}
 		if !ok || p.Kind != VTerm {
 			fr.vals[i] = poison("fieldaddr on unsupported base", i.Type())
 			return
@@ -178,13 +187,32 @@ func (x *Exec) nilCheck(fr *Frame, p Value, pos token.Pos, bc Term, what string)
 	x.safety(fr, "nil-"+what, "pointer is not nil", pos, bc, T(SBool, app("not", app("=", p.T.S, "0"))))
 }
 
-func (x *Exec) doAlloc(st State, el types.Type, hint string) Value {
+func (x *Exec) doAlloc(st State, el types.Type, hint string, heap bool) Value {
 	ptrT := types.NewPointer(el)
+	if _, isArr := el.Underlying().(*types.Array); !heap && !isArr {
+		x.nlocal++
+		name := fmt.Sprintf("_L%d_%s", x.nlocal, sanitize(hint))
+		if _, sty, ok := x.structOf(el); ok {
+			for i := 0; i < sty.NumFields(); i++ {
+				f := sty.Field(i)
+				if _, _, nested := x.structOf(f.Type()); nested {
+					continue
+				}
+				x.Locals[name+"."+f.Name()] = sortOfOrInt(f.Type())
+				st[name+"."+f.Name()] = zeroOf(sortOfOrInt(f.Type()))
+			}
+		} else {
+			x.Locals[name] = sortOfOrInt(el)
+			st[name] = zeroOf(sortOfOrInt(el))
+		}
+		return Value{Kind: VAddr, Typ: ptrT, A: &Addr{Kind: ALocal, Comp: name, Typ: el}}
+	}
 	if arr, ok := el.Underlying().(*types.Array); ok {
 		// fresh backing array, zeroed
 		a := x.freshRef(st, "arr")
 		es := sortOfOrInt(arr.Elem())
 		mem := x.comp(st, memComp(es))
+		x.noteStore(st, memComp(es), a)
 		x.setComp(st, memComp(es), Store(mem, a, T(ArrSort(es), "((as const "+ArrSort(es)+") "+zeroOf(es).S+")")))
 		return VT(a, ptrT)
 	}
@@ -414,6 +442,7 @@ func (x *Exec) doMapUpdate(fr *Frame, i *ssa.MapUpdate, bc Term, st State, site 
 	x.setComp(st, "Map_len", Store(ml, m, Ite(was, T(SInt, app("select", ml.S, m.S)), T(SInt, app("+", app("select", ml.S, m.S), "1")))))
 	x.setComp(st, base+"_has", Store(has, m, T(hrow.Sort, app("store", hrow.S, k.S, "true"))))
 	x.setComp(st, base+"_val", Store(val, m, T(vrow.Sort, app("store", vrow.S, k.S, v.S))))
+	x.epochReset(st)
 }
 
 func (x *Exec) doSlice(fr *Frame, i *ssa.Slice, bc Term, st State, site string) Value {
@@ -487,6 +516,7 @@ func (x *Exec) doMakeSlice(fr *Frame, i *ssa.MakeSlice, bc Term, st State, site 
 	es := sortOfOrInt(i.Type().Underlying().(*types.Slice).Elem())
 	a := x.freshRef(st, "mk")
 	mem := x.comp(st, memComp(es))
+	x.noteStore(st, memComp(es), a)
 	x.setComp(st, memComp(es), Store(mem, a, T(ArrSort(es), "((as const "+ArrSort(es)+") "+zeroOf(es).S+")")))
 	return VT(x.C.Def("mksl", T(SSlice, fmt.Sprintf("(mk-slice %s 0 %s %s)", a.S, l.S, c.S))), i.Type())
 }
